@@ -99,3 +99,22 @@ def run(ctx):
         "_pdep_u64 and wrapping_add are modelled by their arithmetic definitions",
         "NEON / SVE2 engines cannot run on this x86_64 host and are not covered",
     ]
+
+# MUTANTS (scratch worktree, VERIF_REPO=..., quick tier, model stage skipped; all must exit 1):
+#  M1  quote_mask.rs next_carry ignores the incoming carry          -> caught (trace: index sse2; replay variant 2
+#      [string across the 2nd boundary after a quoted region spanning the 1st] added because the first replay
+#      version placed strings over <= 2 chunks only and missed it)
+#  M2  avx2.rs  delim_mask1 << 32  ->  << 31                        -> caught (trace index avx2 + replay)
+#  M3  x86.rs toggle64_bmi2: ODDS_MASK << (carry & 1) -> ODDS_MASK   -> caught (trace index bmi2/dispatch + replay)
+#  M4  sse2.rs  quote_mask3 << 48  ->  << 47                        -> caught (trace index sse2 + replay)
+#  M5  bmi2.rs  chunk loop never stores new_carry                    -> caught (trace index bmi2 + replay)
+#  M10 parser.rs scalar: newline bytes not written to `markers`      -> caught (trace index scalar, event 2)
+#  M8  index_lightweight.rs markers_select1: partition_point -> slice::binary_search (the issue-#196 shape)
+#      -> NOT caught, and equivalent on this toolchain: rustc 1.95's binary_search returns the LAST of equal
+#      elements (verified on [0,1,1,1,3] etc.), i.e. exactly partition_point - 1.
+#  M8b the same lookup returning the FIRST of equal rank entries      -> caught (trace q mselect after a whole
+#      64-bit word without marks; those targeted select queries (gap_ks) were added for this mutant)
+#  not applicable: dropping `markers_word &= mask` in the tail chunk is equivalent (write_bits(_, remaining)
+#      truncates); the spec-level counterpart (BitsToPos(.., W) instead of rem) IS rejected by MC_DsvChunked.
+#  spec-level sanity (mutating the TLA+ transcription): NextCarry without carry, Pdep without the shift,
+#      unmasked tail -> MC_QuoteMask / MC_DsvChunked report a violated invariant.
